@@ -518,6 +518,12 @@ def run(ctx):
     for fi, t in hits:
         ctx.violation(R5, f"{fi.key}:one-sided:{short(t, 40)}", f"`{short(t)}` decides about an imaginary part by a one-sided comparison: every negative imaginary part counts as negligible, so amplitudes such as -i/sqrt(2) are saved without it and do not come back", f"{fi.module.relpath}:{t.lineno}")
     ctx.ok(R5, "utils,wavefunction:one-sided-imag", f"no one-sided test on an imaginary part ({len(hits)} found)", "")
+    # "saving and loading returns the same amplitudes": the array conversions both directions go through are decided once, by C11
+    # (arrays reach the constructor as stored, no real-dtype coercion; no one-sided imaginary-part test)
+    from ..common import share_rule
+    from . import c11
+
+    share_rule(ctx, "C11", c11.check_loaded_arrays_unchanged, "C12-D5 record")
     ctx.floor("C12-D1", 3)
     ctx.floor("C12-D2", 4)
     ctx.floor("C12-D3", 20)
